@@ -142,7 +142,9 @@ def run_tlc(spec, cfg, wd, workers=None, timeout=600, env_extra=None, heap="8g",
         shutil.copy(os.path.join(SPECS, cfg), cfgpath)
     else:
         open(cfgpath, "w").write(cfg)
-    jopts = "-Xmx%s -Xss%s -XX:+UseParallelGC" % (heap, xss)
+    jtmp = os.path.join(wd, "jtmp")
+    os.makedirs(jtmp, exist_ok=True)
+    jopts = "-Xmx%s -Xss%s -XX:+UseParallelGC -Djava.io.tmpdir=%s" % (heap, xss, jtmp)       # nothing is left under /tmp
     if dfs:
         jopts += " -Dtlc2.tool.queue.IStateQueue=StateDeque"
     cmd = ["timeout", str(int(timeout)), "java"] + jopts.split() + ["-cp", TLC_JAR, "tlc2.TLC",
@@ -226,6 +228,26 @@ def load_known(pid):
         return []
     d = json.load(open(p))
     return [f for f in d.get("findings", []) if pid in f.get("properties", [f.get("property")])]
+
+
+def probe_known(chk, jsrun, wd):
+    """Known findings that are identified by specific inputs carry a `probe`: a JavaScript expression over exactly those inputs
+    that is true while the defect is present. Each finding still present is reported as KNOWN-FINDING (never as a violation);
+    the inputs are excluded from the model replay by the specification itself, everything else is still decided."""
+    for f in chk.known:
+        js = (f.get("probe") or {}).get("js")
+        if not js:
+            continue
+        src = os.path.join(wd, "probe-%s.js" % f["id"])
+        open(src, "w").write("String(!!(%s))" % js)
+        r = subprocess.run([jsrun, src], stdout=subprocess.PIPE, stderr=subprocess.STDOUT, text=True, timeout=60)
+        out = r.stdout.strip().splitlines()[-1] if r.stdout.strip() else ""
+        if out == "true":
+            chk.known_hit(f["id"], f["what"])
+        elif out == "false":
+            chk.notes.append("finding %s no longer reproduces on this tree" % f["id"])
+        else:
+            raise Inconclusive("probe of finding %s failed: %s" % (f["id"], r.stdout[-300:]))
 
 
 class phase:
